@@ -269,7 +269,7 @@ def judge_dialog(case):
         elif kind == "FDD":
             r = sut(ss.mpe_from_plot, "a", freqlim=(fl[0], fl[1]), DF=1.0)
         else:
-            r = sut(ss.mpe_from_plot, "a", freqlim=(fl[0] * fsc, fl[1] * fsc), rtol=1e-6)
+            r = sut(ss.mpe_from_plot, "a", freqlim=(fl[0] * fsc, fl[1] * fsc), rtol=case.get("rtol") or 1e-6)
     matplotlib.pyplot.close("all")
     model = holder.get("model")
     if model is None:
@@ -310,7 +310,7 @@ def judge_dialog(case):
         # differential: a twin object given the same pairs through the non-interactive mpe returns the same modes
         ss2, alg2 = _install(kind, t, fs=FS * fsc, ordmin=case.get("ordmin", 0))
         pairs = sorted(model, key=_key)
-        r2 = sut(ss2.mpe, "a", sel_freq=[p[0] for p in pairs], order=[int(p[1]) for p in pairs], rtol=1e-6)
+        r2 = sut(ss2.mpe, "a", sel_freq=[p[0] for p in pairs], order=[int(p[1]) for p in pairs], rtol=case.get("rtol") or 1e-6)
         if j.check(not raised(r2), "twin-mpe-raises", lambda: f"{r2!r}"):
             def rows(res_):
                 F, X, P, O = np.asarray(res_.Fn).reshape(-1), np.asarray(res_.Xi).reshape(-1), np.asarray(res_.Phi), np.asarray(res_.order_out).reshape(-1)
@@ -390,7 +390,8 @@ def machine_case(draw, kind):
             tc["nmodes"] = max(1, tc["nmodes"])
             cols = list(range(tc["cols"]))
     fsc = 1.0 if kind == "FDD" else c["table"]["fscale"]
-    c["freqlim"] = draw(st.sampled_from([None, None, [3.0, 21.0], [6.5, 24.0], [0.0, 12.0]]))
+    c["freqlim"] = draw(st.sampled_from([None, None, [3.0, 21.0], [6.5, 24.0], [0.0, 12.0]] + ([[-3.0, 12.0]] if kind == "FDD" else [])))  # a window may start below 0 Hz
+    c["rtol"] = draw(st.sampled_from([1e-6, 1e-6, 0.01, 0.05])) if kind != "FDD" else None  # tolerance of the extraction that follows the dialog
     c["prior"] = draw(st.sampled_from([0, 0, 1, 5, 11])) if kind != "FDD" else 0
     c["ordmin"] = draw(st.sampled_from([0, 0, 2, 4])) if kind != "FDD" else 0  # poles below ordmin stay in the tables and on the chart
     xlo, xhi = (0.3, 24.5) if c["freqlim"] is None else (c["freqlim"][0] + 0.2, c["freqlim"][1] - 0.2)
